@@ -117,7 +117,7 @@ class World:
         S = ZSeq if self.lazy else LSeq
         e = {
             "ds": self.dataset(),
-            "Select": lambda s, f: S.of(s).Select(f), "Where": lambda s, f: S.of(s).Where(f), "SelectMany": lambda s, f: S.of(s).SelectMany(f),
+            "Select": lambda s, f: S.of(s).Select(f), "Where": lambda s, filter: S.of(s).Where(filter), "SelectMany": lambda s, func: S.of(s).SelectMany(func),     # parameter names as in ObjectStream
             "First": lambda s: S.of(s).First(), "Count": lambda s: S.of(s).Count(), "Sum": lambda s: S.of(s).Sum(),
             "Max": lambda s: S.of(s).Max(), "Min": lambda s: S.of(s).Min(), "Aggregate": lambda s, i, f: S.of(s).Aggregate(i, f),
             "MetaData": lambda s, d: s, "len": lambda s: len(s) if isinstance(s, (tuple, dict)) else S.of(s).Count(), "abs": abs,
@@ -158,10 +158,12 @@ class LSeq(list):
     def Select(self, f):
         return LSeq([f(x) for x in self])
 
-    def Where(self, f):
+    def Where(self, filter):
+        f = filter
         return LSeq([x for x in self if f(x)])
 
-    def SelectMany(self, f):
+    def SelectMany(self, func):
+        f = func
         return LSeq([y for x in self for y in LSeq.of(f(x))])
 
     def First(self):
@@ -218,10 +220,12 @@ class ZSeq:
     def Select(self, f):
         return ZSeq(lambda: (f(x) for x in self))
 
-    def Where(self, f):
+    def Where(self, filter):
+        f = filter
         return ZSeq(lambda: (x for x in self if f(x)))
 
-    def SelectMany(self, f):
+    def SelectMany(self, func):
+        f = func
         return ZSeq(lambda: (y for x in self for y in ZSeq.of(f(x))))
 
     def First(self):
@@ -267,10 +271,12 @@ class PyStream:
     def Select(self, f):
         return PyStream(self.seq.Select(self._fn(f)), self.env)
 
-    def Where(self, f):
+    def Where(self, filter):
+        f = filter
         return PyStream(self.seq.Where(self._fn(f)), self.env)
 
-    def SelectMany(self, f):
+    def SelectMany(self, func):
+        f = func
         return PyStream(self.seq.SelectMany(self._fn(f)), self.env)
 
     def MetaData(self, d):
@@ -330,7 +336,10 @@ def run(tree, env):
         # a missing expression context is a well-formedness matter (C18), not a semantic one: read it as Load
         if isinstance(n, (ast.Name, ast.Attribute, ast.Subscript, ast.Tuple, ast.List, ast.Starred)) and not hasattr(n, "ctx"):
             n.ctx = ast.Load()
-    code = compile(ast.fix_missing_locations(ast.Expression(t)), "<query>", "eval")
+    try:
+        code = compile(ast.fix_missing_locations(ast.Expression(t)), "<query>", "eval")
+    except (SyntaxError, TypeError, ValueError) as e:
+        return "err", "does not compile: %s: %s" % (type(e).__name__, e)
     env = dict(env)
     env["__Rec"] = Rec
     try:
